@@ -16,6 +16,12 @@ from autograd.wrap_util import get_name
 warnings.simplefilter("ignore")
 
 
+def _nanify(v):
+    e = onp.zeros(onp.shape(v))
+    e[(0,) * onp.ndim(v)] = onp.nan
+    return v + e
+
+
 # ----------------------------------------------------------------------------- primitives with planted defects
 def make_prim(arg_kind, defect, where):
     """f with correct forward value; `defect` planted in the rule of `where` in {"rev", "fwd", "rev2", "fwd2", None}
@@ -32,7 +38,8 @@ def make_prim(arg_kind, defect, where):
 
         def good_jvp(g):
             return np.dot(A, g)
-        bad = {"factor": lambda v: 1.01 * v, "sign": lambda v: -v, "entry": lambda v: v + onp.eye(3)[0][:, None] * 0.5 * onp.ones(v.shape) if v.ndim == 2 else v + 0.5 * onp.eye(3)[0]}
+        bad = {"factor": lambda v: 1.01 * v, "sign": lambda v: -v, "entry": lambda v: v + onp.eye(3)[0][:, None] * 0.5 * onp.ones(v.shape) if v.ndim == 2 else v + 0.5 * onp.eye(3)[0],
+               "nan": lambda v: v + (onp.eye(3)[0][:, None] * onp.ones(v.shape) if v.ndim == 2 else onp.eye(3)[0]) * onp.where(onp.eye(3)[0][:, None] * onp.ones(v.shape) if v.ndim == 2 else onp.eye(3)[0], onp.nan, 0.0) if False else _nanify(v)}
         if defect == "transpose":
             vj = (lambda g: np.dot(A, g)) if where == "rev" else good_vjp
             jv = (lambda g: np.dot(A.T, g)) if where == "fwd" else good_jvp
@@ -78,6 +85,15 @@ def make_prim(arg_kind, defect, where):
             return v + e
         if defect == "conj":
             return np.conj(v)
+        if defect in ("nan", "inf"):
+            # the rule is right except that one entry is not a finite number (an un-simplified 0/0, an overflow)
+            bad = onp.nan if defect == "nan" else onp.inf
+            e = onp.zeros(onp.shape(v)) if onp.ndim(v) else 0.0
+            if onp.ndim(v):
+                e[(0,) * onp.ndim(v)] = bad
+            else:
+                e = bad
+            return v + e
         return v
     # for a holomorphic f the documented convention conj(J_R^T conj(g)) is simply g * f'(x)
     defvjp(f, lambda ans, x: (lambda g: corrupt(helper(g, x))) if where == "rev" else (lambda g: helper(g, x)))
